@@ -25,8 +25,8 @@ PROPS = {
     'C13': dict(mc=[('MC_Router', None)], world=['random']),
     'C14': dict(mc=[('MC_Pool', None), ('MC_Factory', None)], world=['matrix', 'random']),
     'C15': dict(mc=[('MC_Pool', None), ('MC_Math', ['slip'])], math=['slip'], world=['random']),
-    'C16': dict(mc=[('MC_Factory', None)], world=['registry', 'matrix']),
-    'C17': dict(mc=[('MC_Factory', None)], world=['registry']),
+    'C16': dict(mc=[('MC_Factory', None), ('MC_System', None)], world=['registry', 'matrix']),
+    'C17': dict(mc=[('MC_Factory', None), ('MC_System', None)], world=['registry']),
     'C18': dict(mc=[], math=['text'], level='exploration'),
     'C19': dict(mc=[('MC_Factory', None)], world=['registry']),
     'C20': dict(mc=[('MC_Pool', None)], world=['withdraw', 'random']),
@@ -92,6 +92,14 @@ def mc_router_cfg(tier):
     return c
 
 
+def mc_system_cfg(tier):
+    c = core.int_consts()
+    c += '  MAXSTEPS = %d\n  COMMISSION = 1\n' % (8 if tier == 'thorough' else 7)
+    c += '  KeyBytes <- MCKeyBytes\n  AddrOfIndex <- MCAddrOfIndex\n  LEGACY = {}\n'
+    c += 'SPECIFICATION Spec\nVIEW View\nPROPERTY StepProp\nINVARIANT StateInv\nCHECK_DEADLOCK FALSE\n'
+    return c
+
+
 def mc_factory_cfg(tier, legacy='{}'):
     c = core.int_consts()
     c += '  MAXSTEPS = %d\n  DefaultL = 2\n  MaxL = 3\n' % (5 if tier == 'thorough' else 4)
@@ -129,7 +137,12 @@ def run_mc(pid, tier, workdir):
     if os.environ.get('VERIF_TRACES_ONLY'):
         # developer switch for seed sweeps of the trace layer (the models do not depend on the seed)
         return total
-    for module, fams in PROPS[pid].get('mc', []):
+    models = list(PROPS[pid].get('mc', []))
+    if tier == 'thorough' and pid in ('C03', 'C07', 'C11', 'C13') and not any(m == 'MC_System' for m, _ in models):
+        models.append(('MC_System', None))
+    if tier == 'thorough' and pid in ('C01', 'C03', 'C07', 'C14') and not any(m == 'MC_Router' for m, _ in models):
+        models.append(('MC_Router', None))
+    for module, fams in models:
         if module == 'MC_Math':
             runs = [(fams, mc_math_cfg(fams, tier))]
         elif module == 'MC_Pool':
@@ -144,6 +157,8 @@ def run_mc(pid, tier, workdir):
                 runs += [('kind=%s well-formed shapes depth 4' % k, mc_pool_cfg(k, tier, full=False, depth=4)) for k in kinds]
         elif module == 'MC_Router':
             runs = [('3 pairs, routes of 1..3 hops', mc_router_cfg(tier))]
+        elif module == 'MC_System':
+            runs = [('whole deployment from scratch, depth %d' % (8 if tier == 'thorough' else 7), mc_system_cfg(tier))]
         elif module == 'MC_Factory':
             runs = [('registry, byte-sequence identifiers, pages 2/3', mc_factory_cfg(tier))]
         else:
